@@ -5,23 +5,24 @@ open MosnVerif.Gen.ProxyPhase MosnVerif.Gen.ProxyReason MosnVerif.Gen.ProxyRetry
 
 theorem inv_poolFail (c : Cfg) (ar aq : Nat) (s : S) (f : PoolFail) (h : Inv c ar aq s) :
     Inv c ar aq { s with failNext := s.failNext ++ [f] } := by
-  obtain ⟨k0, k1, k2, k3, k4, k5, k6, k7, k8, k9, k10, k11, k12, k13, k14, k15, k16, k17, k18, k19, k20, k21, k22, k23, k24, k25, k26, k27, k28, k29, k30, k31, k32⟩ := h
-  exact ⟨k0, k1, k2, k3, k4, k5, k6, k7, k8, k9, k10, k11, k12, k13, k14, k15, k16, k17, k18, k19, k20, k21, k22, k23, k24, k25, k26, k27, k28, k29, k30, k31, k32⟩
+  obtain ⟨k0, k1, k2, k3, k4, k5, k6, k7, k8, k9, k10, k11, k12, k13, k14, k15, k16, k17, k18, k19, k20, k21, k22, k23, k24, k25, k26, k27, k28, k29, k30, k31, k32, k33⟩ := h
+  exact ⟨k0, k1, k2, k3, k4, k5, k6, k7, k8, k9, k10, k11, k12, k13, k14, k15, k16, k17, k18, k19, k20, k21, k22, k23, k24, k25, k26, k27, k28, k29, k30, k31, k32, k33⟩
 
 theorem inv_hostsGone (c : Cfg) (ar aq : Nat) (s : S) (h : Inv c ar aq s) :
     Inv c ar aq { s with hostsGone := true } := by
-  obtain ⟨k0, k1, k2, k3, k4, k5, k6, k7, k8, k9, k10, k11, k12, k13, k14, k15, k16, k17, k18, k19, k20, k21, k22, k23, k24, k25, k26, k27, k28, k29, k30, k31, k32⟩ := h
-  exact ⟨k0, k1, k2, k3, k4, k5, k6, k7, k8, k9, k10, k11, k12, k13, k14, k15, k16, k17, k18, k19, k20, k21, k22, k23, k24, k25, k26, k27, k28, k29, k30, k31, k32⟩
+  obtain ⟨k0, k1, k2, k3, k4, k5, k6, k7, k8, k9, k10, k11, k12, k13, k14, k15, k16, k17, k18, k19, k20, k21, k22, k23, k24, k25, k26, k27, k28, k29, k30, k31, k32, k33⟩ := h
+  exact ⟨k0, k1, k2, k3, k4, k5, k6, k7, k8, k9, k10, k11, k12, k13, k14, k15, k16, k17, k18, k19, k20, k21, k22, k23, k24, k25, k26, k27, k28, k29, k30, k31, k32, k33⟩
 
 theorem inv_dsOnResetStream (c : Cfg) (ar aq : Nat) (s : S) (r : Reason) (dl : Bool)
     (h : Inv c ar aq s) : Inv c ar aq (dsOnResetStream { s with downLive := dl } r) := by
-  obtain ⟨k0, k1, k2, k3, k4, k5, k6, k7, k8, k9, k10, k11, k12, k13, k14, k15, k16, k17, k18, k19, k20, k21, k22, k23, k24, k25, k26, k27, k28, k29, k30, k31, k32⟩ := h
-  refine ⟨k0, k1, k2, k3, k4, k5, ?_, k7, k8, k9, k10, k11, k12, k13, k14, k15, k16, k17, ?_, k19, k20, k21, k22, k23, k24, k25, k26, k27, ?_, k29, k30, k31, k32⟩
+  obtain ⟨k0, k1, k2, k3, k4, k5, k6, k7, k8, k9, k10, k11, k12, k13, k14, k15, k16, k17, k18, k19, k20, k21, k22, k23, k24, k25, k26, k27, k28, k29, k30, k31, k32, k33⟩ := h
+  refine ⟨k0, k1, k2, k3, k4, k5, ?_, k7, k8, k9, k10, k11, k12, k13, k14, k15, k16, k17, ?_, k19, k20, k21, k22, k23, k24, k25, k26, k27, ?_, k29, k30, k31, k32, ?_⟩
   · simp [K6, dsOnResetStream]
   · simp only [K18, dsOnResetStream] at k18 ⊢
     grind
   · simp only [K28, dsOnResetStream] at k28 ⊢
     grind
+  · intro _; exact Or.inr (Or.inl rfl)
 
 theorem inv_connClose (c : Cfg) (ar aq : Nat) (s : S) (h : Inv c ar aq s) : Inv c ar aq (connClose s) := by
   unfold connClose
@@ -103,7 +104,7 @@ theorem inv_reset_destroy (c : Cfg) (ar aq : Nat) (s : S) (k : Nat) (r : Reason)
     cases fire
     · exact h.k22
     · exact h.k22
-  obtain ⟨k0, k1, k2, k3, k4, k5, k6, k7, k8, k9, k10, k11, k12, k13, k14, k15, k16, k17, k18, k19, k20, k21, k22, k23, k24, k25, k26, k27, k28, k29, k30, k31, k32⟩ := h
+  obtain ⟨k0, k1, k2, k3, k4, k5, k6, k7, k8, k9, k10, k11, k12, k13, k14, k15, k16, k17, k18, k19, k20, k21, k22, k23, k24, k25, k26, k27, k28, k29, k30, k31, k32, k33⟩ := h
   have hnr : s.phase ≠ .Retry := by
     intro hp
     have := k23 hcl (Or.inr hp)
@@ -120,7 +121,7 @@ theorem inv_reset_destroy (c : Cfg) (ar aq : Nat) (s : S) (k : Nat) (r : Reason)
     · exact absurd hp hn30
     · exact absurd hp hn30
   cases fire
-  · refine ⟨k0, k1, k2, k3, k4, k5, k6, k7, k8, k9, hd.1, hd.2.1, k12, ?_, hd.2.2, ?_, k16, ?_, k18, k19, ?_, k21, h22, h23, k24, k25, k26, ?_, k28, k29, h30, k31, k32⟩
+  · refine ⟨k0, k1, k2, k3, k4, k5, k6, k7, k8, k9, hd.1, hd.2.1, k12, ?_, hd.2.2, ?_, k16, ?_, k18, k19, ?_, k21, h22, h23, k24, k25, k26, ?_, k28, k29, h30, k31, k32, (fun hh => absurd hh (by simp [hcl]))⟩
     · intro hh; exact absurd hh (by simp [hcl])
     · intro _ hh; exact absurd hh (by simp [hup])
     · intro _ hh; exact absurd hh (by simp [hpre])
@@ -130,7 +131,7 @@ theorem inv_reset_destroy (c : Cfg) (ar aq : Nat) (s : S) (k : Nat) (r : Reason)
       rcases this with h | ⟨_, h⟩
       · left; exact h
       · omega
-  · refine ⟨k0, k1, k2, k3, k4, k5, k6, k7, k8, k9, hd.1, hd.2.1, k12, ?_, hd.2.2, ?_, k16, ?_, ?_, k19, ?_, k21, h22, h23, k24, k25, ?_, ?_, ?_, k29, h30, k31, k32⟩
+  · refine ⟨k0, k1, k2, k3, k4, k5, k6, k7, k8, k9, hd.1, hd.2.1, k12, ?_, hd.2.2, ?_, k16, ?_, ?_, k19, ?_, k21, h22, h23, k24, k25, ?_, ?_, ?_, k29, h30, k31, k32, (fun hh => absurd hh (by simp [upOnResetStream, hcl]))⟩
     · intro hh; exact absurd hh (by simp [upOnResetStream, hcl])
     · intro _ hh; exact absurd hh (by simp [upOnResetStream, hup])
     · intro _ hh; exact absurd hh (by simp [upOnResetStream, hpre])
@@ -175,9 +176,9 @@ theorem inv_upResp (c : Cfg) (ar aq : Nat) (s : S) (k code : Nat) (d t : Bool) (
       have hd := hdd.1
       have hdead := hdd.2 (streamLiveCounted_le s k hlc)
       have h22 := K22_destroyStream c s k h.k22
-      obtain ⟨k0, k1, k2, k3, k4, k5, k6, k7, k8, k9, k10, k11, k12, k13, k14, k15, k16, k17, k18, k19, k20, k21, k22, k23, k24, k25, k26, k27, k28, k29, k30, k31, k32⟩ := h
+      obtain ⟨k0, k1, k2, k3, k4, k5, k6, k7, k8, k9, k10, k11, k12, k13, k14, k15, k16, k17, k18, k19, k20, k21, k22, k23, k24, k25, k26, k27, k28, k29, k30, k31, k32, k33⟩ := h
       refine ⟨k0, k1, k2, k3, k4, k5, k6, k7, k8, k9, hd.1, hd.2.1, k12, ?_, hd.2.2, ?_, k16, ?_, ?_, k19, ?_, k21, h22,
-        fun _ _ => allDead_liveCount hdead, k24, k25, ?_, ?_, ?_, k29, ?_, k31, k32⟩
+        fun _ _ => allDead_liveCount hdead, k24, k25, ?_, ?_, ?_, k29, ?_, k31, k32, (fun hh => absurd hh (by simp [hcl]))⟩
       · intro hh; exact absurd hh (by simp [hcl])
       · intro _ hh; exact absurd hh (by simp [hup])
       · intro _ hh; exact absurd hh (by simp [hpre])
@@ -251,8 +252,8 @@ theorem inv_perTryFire (c : Cfg) (ar aq : Nat) (s : S) (h : Inv c ar aq s) : Inv
       simp [this] at hpt
     · split
       · -- CAS lost
-        obtain ⟨k0, k1, k2, k3, k4, k5, k6, k7, k8, k9, k10, k11, k12, k13, k14, k15, k16, k17, k18, k19, k20, k21, k22, k23, k24, k25, k26, k27, k28, k29, k30, k31, k32⟩ := h
-        refine ⟨k0, k1, k2, k3, k4, k5, k6, k7, k8, k9, k10, k11, k12, ?_, k14, ?_, k16, ?_, k18, k19, k20, ?_, k22, k23, k24, k25, ?_, k27, k28, k29, ?_, k31, k32⟩
+        obtain ⟨k0, k1, k2, k3, k4, k5, k6, k7, k8, k9, k10, k11, k12, k13, k14, k15, k16, k17, k18, k19, k20, k21, k22, k23, k24, k25, k26, k27, k28, k29, k30, k31, k32, k33⟩ := h
+        refine ⟨k0, k1, k2, k3, k4, k5, k6, k7, k8, k9, k10, k11, k12, ?_, k14, ?_, k16, ?_, k18, k19, k20, ?_, k22, k23, k24, k25, ?_, k27, k28, k29, ?_, k31, k32, k33⟩
         · simp only [K13] at k13 ⊢; grind
         · simp only [K15] at k15 ⊢; grind
         · simp only [K17] at k17 ⊢; grind
@@ -264,12 +265,12 @@ theorem inv_perTryFire (c : Cfg) (ar aq : Nat) (s : S) (h : Inv c ar aq s) : Inv
         obtain ⟨hcl, how, hfwd, hpre, hup, hsr, hrs⟩ := timer_facts c ar aq s h (Or.inl hpt) hurr
         have hled := resetUpstream_ledger c aq { s with perTry := false, urr := true } ⟨h.k10, h.k11, h.k14⟩
         have h18 := h.k18 hcl hfwd
-        obtain ⟨k0, k1, k2, k3, k4, k5, k6, k7, k8, k9, k10, k11, k12, k13, k14, k15, k16, k17, k18, k19, k20, k21, k22, k23, k24, k25, k26, k27, k28, k29, k30, k31, k32⟩ := h
+        obtain ⟨k0, k1, k2, k3, k4, k5, k6, k7, k8, k9, k10, k11, k12, k13, k14, k15, k16, k17, k18, k19, k20, k21, k22, k23, k24, k25, k26, k27, k28, k29, k30, k31, k32, k33⟩ := h
         split
         rotate_left
         · rename_i hh; simp [hrs] at hh
         refine ⟨?_, ?_, ?_, ?_, ?_, ?_, ?_, ?_, ?_, ?_, hled.1.1, hled.1.2.1, ?_, ?_, hled.1.2.2, ?_, ?_, ?_, ?_, ?_, ?_, ?_,
-          K22_resetUpstream c _ k22, fun _ _ => allDead_liveCount hled.2, ?_, ?_, ?_, ?_, ?_, ?_, ?_, ?_, ?_⟩
+          K22_resetUpstream c _ k22, fun _ _ => allDead_liveCount hled.2, ?_, ?_, ?_, ?_, ?_, ?_, ?_, ?_, ?_, ?_⟩
         · simpa [K0, upOnResetStream, orFlag] using k0
         · simpa [K1, upOnResetStream, orFlag] using k1
         · simpa [K2, upOnResetStream, orFlag] using k2
@@ -308,6 +309,7 @@ theorem inv_perTryFire (c : Cfg) (ar aq : Nat) (s : S) (h : Inv c ar aq s) : Inv
           rw [this] at hpt; cases hpt
         · simpa [K31, upOnResetStream, orFlag] using k31
         · simpa [K32, upOnResetStream, orFlag] using k32
+        · intro hh; exact absurd hh (by simp [upOnResetStream, orFlag, hcl])
 
 theorem inv_globalFire (c : Cfg) (ar aq : Nat) (s : S) (h : Inv c ar aq s) : Inv c ar aq (globalFire c s) := by
   unfold globalFire
@@ -329,8 +331,8 @@ theorem inv_globalFire (c : Cfg) (ar aq : Nat) (s : S) (h : Inv c ar aq s) : Inv
         split
         · -- CAS lost: only the timer flag and the expiry record change
           rename_i hurr
-          obtain ⟨k0, k1, k2, k3, k4, k5, k6, k7, k8, k9, k10, k11, k12, k13, k14, k15, k16, k17, k18, k19, k20, k21, k22, k23, k24, k25, k26, k27, k28, k29, k30, k31, k32⟩ := h
-          refine ⟨k0, k1, k2, k3, k4, k5, k6, k7, k8, k9, k10, k11, k12, ?_, k14, ?_, k16, ?_, ?_, k19, k20, ?_, k22, k23, ?_, k25, ?_, k27, k28, k29, ?_, k31, k32⟩
+          obtain ⟨k0, k1, k2, k3, k4, k5, k6, k7, k8, k9, k10, k11, k12, k13, k14, k15, k16, k17, k18, k19, k20, k21, k22, k23, k24, k25, k26, k27, k28, k29, k30, k31, k32, k33⟩ := h
+          refine ⟨k0, k1, k2, k3, k4, k5, k6, k7, k8, k9, k10, k11, k12, ?_, k14, ?_, k16, ?_, ?_, k19, k20, ?_, k22, k23, ?_, k25, ?_, k27, k28, k29, ?_, k31, k32, k33⟩
           · simp only [K13] at k13 ⊢; grind
           · simp only [K15] at k15 ⊢; grind
           · simp only [K17] at k17 ⊢; grind
@@ -349,9 +351,9 @@ theorem inv_globalFire (c : Cfg) (ar aq : Nat) (s : S) (h : Inv c ar aq s) : Inv
           have hupsome : s.up.isSome = true := h18.1
           simp only [hupsome, ite_true]
           have hled := resetUpstream_ledger c aq { s with global := false, globalExpired := true, urr := true } ⟨h.k10, h.k11, h.k14⟩
-          obtain ⟨k0, k1, k2, k3, k4, k5, k6, k7, k8, k9, k10, k11, k12, k13, k14, k15, k16, k17, k18, k19, k20, k21, k22, k23, k24, k25, k26, k27, k28, k29, k30, k31, k32⟩ := h
+          obtain ⟨k0, k1, k2, k3, k4, k5, k6, k7, k8, k9, k10, k11, k12, k13, k14, k15, k16, k17, k18, k19, k20, k21, k22, k23, k24, k25, k26, k27, k28, k29, k30, k31, k32, k33⟩ := h
           refine ⟨?_, ?_, ?_, ?_, ?_, ?_, ?_, ?_, ?_, ?_, hled.1.1, hled.1.2.1, ?_, ?_, hled.1.2.2, ?_, ?_, ?_, ?_, ?_, ?_, ?_,
-            K22_resetUpstream c _ k22, fun _ _ => allDead_liveCount hled.2, ?_, ?_, ?_, ?_, ?_, ?_, ?_, ?_, ?_⟩
+            K22_resetUpstream c _ k22, fun _ _ => allDead_liveCount hled.2, ?_, ?_, ?_, ?_, ?_, ?_, ?_, ?_, ?_, ?_⟩
           · simpa [K0, upOnResetStream] using k0
           · simpa [K1, upOnResetStream] using k1
           · simpa [K2, upOnResetStream] using k2
@@ -389,6 +391,7 @@ theorem inv_globalFire (c : Cfg) (ar aq : Nat) (s : S) (h : Inv c ar aq s) : Inv
             rw [this] at hgt; cases hgt
           · simpa [K31, upOnResetStream] using k31
           · simpa [K32, upOnResetStream] using k32
+          · intro hh; exact absurd hh (by simp [upOnResetStream, hcl])
 
 /-- every label of another goroutine preserves the invariant -/
 theorem inv_async (c : Cfg) (ar aq : Nat) (s : S) (l : Label) (hl : l ≠ .work) (h : Inv c ar aq s) :
